@@ -85,7 +85,8 @@ func NewConn(ctx context.Context, conn net.Conn, options ...Option) (outConn *Co
 	if outConn.inner != nil {
 		outConn.readBuf, err = outConn.inner.Marshal()
 	} else {
-		outConn.readBuf, err = outConn.outer.Marshal()
+		// Not decrypted: forward exactly what the client sent.
+		outConn.readBuf = record
 	}
 	if err != nil {
 		return outConn, err
